@@ -80,7 +80,7 @@ def items(tier):
         out.append((sp, {"rule": "TSLACK", "max_time": F.seq_bound(sp) + 8}))
     for sp in F.same_name_task_specs():
         out.append((sp, {"rule": "TSLACK", "max_time": 14}))
-    for sp in F.sectioned_workplace_specs() + F.id_namespace_specs():
+    for sp in F.sectioned_workplace_specs() + F.id_namespace_specs() + F.stuck_component_specs() + F.named_machine_specs() + F.half_wired_workplace_specs():
         for rule in ("TSLACK", "SPT"):
             out.append((sp, {"rule": rule, "max_time": F.seq_bound(sp) + 10}))
     if tier == "thorough":
